@@ -1231,3 +1231,27 @@ def b_ly_containers(tier, rnd):
                 cases.append((nc, None, s))
     return {"rule": "rest; containers of 0..3 seeded notes (names with <= 2 accidentals, octaves 0..8, any order) x standalone; "
                     "only the 4-note bound of the contract's expression limits the size", "cases": cases}
+
+
+@battery("track_add")
+def b_track_add(tier, rnd):
+    import copy
+    from mingus.containers.track import Track
+    from mingus.containers.bar import Bar
+    from mingus.containers.note_container import NoteContainer
+    tracks = [Track()]
+    for meter in ((4, 4), (3, 4), (6, 8), (0, 0), (1, 1024)):
+        for fill in ((), (4,), (2, 4), (2, 2), (1,), (4, 4, 4), (8, 8, 8, 8, 8, 8), (3, 3, 3), (1024,)):
+            t = Track()
+            b = Bar("G", meter)
+            for v in fill:
+                b.place_notes("C", v)
+            t.bars = [Bar("F", (2, 4)), b] if len(fill) % 2 else [b]
+            tracks.append(t)
+    cases = []
+    for t in tracks:
+        for v in (1, 2, 4, 8, 3, 1.5, 0.5, 1024, 16):
+            for item in (None, NoteContainer(["C", "E"])):
+                cases.append((copy.deepcopy(t), item, v))
+    return {"rule": "46 tracks (empty; 5 meters x 9 fill states of the last bar, with and without a bar before it) x 9 values "
+                    "x {rest, container}", "cases": cases}
